@@ -445,6 +445,11 @@ func (fc *FnCtx) strConcat(a, b Val) Val {
 	q2 := fmt.Sprintf("k!q%d", fc.nfresh)
 	fc.assertGlobal(fmt.Sprintf("(forall ((%s Int)) (! (=> (and (<= 0 %s) (< %s %s)) (= (select %s (+ %s %s)) (select %s (+ %s %s)))) :pattern ((select %s (+ %s %s)))))",
 		q2, q2, q2, b.C[2], arr, a.C[2], q2, b.C[0], b.C[1], q2, arr, a.C[2], q2))
+	// the same fact read from the side of the result's index (so that a goal about cat[j] finds it)
+	fc.nfresh++
+	q3 := fmt.Sprintf("k!q%d", fc.nfresh)
+	fc.assertGlobal(fmt.Sprintf("(forall ((%s Int)) (! (=> (and (<= %s %s) (< %s %s)) (= (select %s %s) (select %s (+ %s (- %s %s))))) :pattern ((select %s %s))))",
+		q3, a.C[2], q3, q3, ln, arr, q3, b.C[0], b.C[1], q3, a.C[2], arr, q3))
 	return Val{K: KStr, T: a.T, C: []string{arr, "0", ln}}
 }
 
